@@ -490,6 +490,164 @@ def check_sendfile_validators(W, rec, tmpdir):
                     return
 
 
+def check_dates_around_the_response_date(W, rec, tmpdir):
+    """The date validator is Last-Modified against If-Modified-Since, nothing else: a response that already carries a Date
+    from an earlier time (taken from a cache, built from an upstream answer, set by the application) and a file whose
+    mtime is ahead of the clock are revalidated like any other."""
+    import time as _time
+
+    from werkzeug.http import http_date
+    from werkzeug.utils import send_file
+
+    Response, create_environ = W["Response"], W["create_environ"]
+    now = datetime.now(timezone.utc).replace(microsecond=0)
+    for date_off in (None, -86400 * 30, -3600, -5, 0, 5, 3600):
+        for lm_off in (-86400 * 60, -7200, -10, 0, 10, 7200):
+            for ims_delta in (-1, 0, 1, 1800, 86400 * 10):
+                for method in ("GET", "HEAD"):
+                    lm = now + timedelta(seconds=lm_off)
+                    ims = lm + timedelta(seconds=ims_delta)
+                    r = Response(b"hello")
+                    r.last_modified = lm
+                    if date_off is not None:
+                        r.date = now + timedelta(seconds=date_off)
+                    env = create_environ(method=method, headers={"If-Modified-Since": http_date(ims)})
+                    r.make_conditional(env)
+                    it, status, hd = r.get_wsgi_response(env)
+                    b"".join(it)
+                    want = 304 if ims_delta >= 0 else 200
+                    case = {"family": "dates-around-the-response-date", "Date_offset_from_now": date_off, "Last-Modified_offset_from_now": lm_off, "If-Modified-Since_minus_Last-Modified": ims_delta, "method": method}
+                    rec.case()
+                    rec.nontrivial(("date-lm-ims", date_off, lm_off, ims_delta, method))
+                    rec.observe("cells_with_a_preset_response_date" if date_off is not None else "cells_with_the_clock_as_response_date")
+                    if int(status[:3]) != want:
+                        rec.violation(f"C11/conditional-got-{status[:3]}-expected-{want}", f"Last-Modified {http_date(lm)}, If-Modified-Since {http_date(ims)}, response Date {dict(hd).get('Date')!r}; {case}", case, monitor="validator-evaluator")
+                        return
+    # a client that echoes the Last-Modified it was sent, for files older and newer than the clock
+    p = os.path.join(tmpdir, "clock.bin")
+    with open(p, "wb") as f:
+        f.write(b"0123456789")
+    for ahead in (-86400, -1, 120, 86400 * 3):
+        mt = int(_time.time()) + ahead
+        os.utime(p, (mt, mt))
+        env = create_environ()
+        r1 = send_file(p, env, conditional=True, etag=False)
+        hd1 = dict(r1.get_wsgi_response(env)[2])
+        r1.close()
+        for method in ("GET", "HEAD"):
+            env2 = create_environ(method=method, headers={"If-Modified-Since": hd1["Last-Modified"]})
+            r2 = send_file(p, env2, conditional=True, etag=False)
+            it, status, _ = r2.get_wsgi_response(env2)
+            b"".join(it)
+            r2.close()
+            rec.case()
+            rec.nontrivial(("echoed-last-modified", ahead, method))
+            rec.observe("revalidations_echoing_last_modified")
+            if int(status[:3]) != 304:
+                case = {"family": "dates-around-the-response-date", "file_mtime_minus_clock": ahead, "method": method}
+                rec.violation(f"C11/conditional-got-{status[:3]}-expected-304", f"the client sent back the Last-Modified it was given ({hd1['Last-Modified']}); {case}", case, monitor="validator-evaluator")
+                return
+
+
+def check_concurrent_generated_etags(W, rec, rng):
+    """Schedule: request threads derive the validator of their own current body at the same time (Response.add_etag,
+    is_resource_modified(data=...)), a new version of a resource appearing while older ones are still being served.  With
+    yields injected inside generate_etag, every response carries the tag of its own body (the one a thread working alone
+    gets), so a client holding the old version is sent the new one and a client holding the current one gets 304."""
+    import sys
+    import threading
+    import time as _time
+
+    from werkzeug import http
+
+    Response, create_environ = W["Response"], W["create_environ"]
+    mon = sys.monitoring
+    TOOL = 5
+    try:
+        mon.use_tool_id(TOOL, "verif-yield-c11")
+    except ValueError:
+        return
+    inj = [0]
+
+    def on_line(code, line):
+        inj[0] += 1
+        _time.sleep(0)
+
+    codes = [http.generate_etag.__code__] + [k for k in http.generate_etag.__code__.co_consts if hasattr(k, "co_code")]
+    mon.register_callback(TOOL, mon.events.LINE, on_line)
+    for c in codes:
+        mon.set_local_events(TOOL, c, mon.events.LINE)
+    old_si = sys.getswitchinterval()
+    sys.setswitchinterval(1e-5)
+    try:
+        versions = [b"version-%d " % i + bytes(rng.randrange(256) for _ in range(rng.choice([10, 2000, 60000]))) for i in range(4)]
+        alone = []
+        for v in versions:
+            r = Response(v)
+            r.add_etag()
+            alone.append(r.headers["ETag"])
+        if len(set(alone)) != len(alone):
+            rec.violation("C11/generated-etag-of-another-body", f"distinct bodies get equal tags when tagged one after the other: {alone}", {"family": "generated-etags"}, monitor="validator-evaluator")
+            return
+        bad = []
+        NT = 6
+        for rnd in range(8):
+            start = threading.Barrier(NT)
+
+            def serve(i):
+                start.wait()
+                for step in range(12):
+                    k = (i + step + rnd) % len(versions)
+                    r = Response(versions[k])
+                    r.add_etag()
+                    tag = r.headers["ETag"]
+                    if tag != alone[k]:
+                        bad.append(("add_etag", k, tag))
+                        return
+                    old = alone[(k + 1) % len(versions)]
+                    for inm, want in ((old, 200), (alone[k], 304)):
+                        env = create_environ(headers={"If-None-Match": inm})
+                        r2 = Response(versions[k])
+                        r2.add_etag()
+                        r2.make_conditional(env)
+                        st = r2.status_code
+                        if st != want:
+                            bad.append(("conditional", k, inm, st, want))
+                            return
+                        mod = http.is_resource_modified(env, data=versions[k])
+                        if mod != (want == 200):
+                            bad.append(("is_resource_modified(data=)", k, inm, mod))
+                            return
+
+            ths = [threading.Thread(target=serve, args=(i,)) for i in range(NT)]
+            for t_ in ths:
+                t_.start()
+            for t_ in ths:
+                t_.join(120)
+            rec.case()
+            rec.nontrivial(("concurrent-etags", rnd))
+            rec.observe("concurrent_etag_rounds")
+            if bad:
+                break
+        # afterwards, single-threaded again
+        if not bad:
+            for k, v in enumerate(versions):
+                r = Response(v)
+                r.add_etag()
+                if r.headers["ETag"] != alone[k]:
+                    bad.append(("add_etag after the threads finished", k, r.headers["ETag"]))
+                    break
+        if bad:
+            case = {"family": "generated-etags", "threads": NT}
+            rec.violation("C11/generated-etag-of-another-body", f"{NT} threads tagging and revalidating 4 versions of a resource: {bad[0]!r} (tags when tagged alone: {alone})", case, monitor="schedule-stress")
+    finally:
+        sys.setswitchinterval(old_si)
+        for c in codes:
+            mon.set_local_events(TOOL, c, 0)
+        mon.free_tool_id(TOOL)
+        rec.observe("concurrent_etag_injected_yields", inj[0])
+
+
 def world():
     from werkzeug import wsgi
     from werkzeug.test import create_environ
@@ -561,6 +719,12 @@ def run(shard, rec, rng):
         if idx % 4 == 1:
             with rec.guard({"family": "send_file-validators"}, "C11"):
                 check_sendfile_validators(W, rec, tmpdir)
+        if idx % 4 == 2:
+            with rec.guard({"family": "dates-around-the-response-date"}, "C11"):
+                check_dates_around_the_response_date(W, rec, tmpdir)
+        if idx % 4 == 3:
+            with rec.guard({"family": "generated-etags"}, "C11"):
+                check_concurrent_generated_etags(W, rec, rng)
         for L in range(0, cfg["maxlen"] + 1, 2):
             for h in RH:
                 for kind in ("path", "bytesio", "fileobj-offset"):
